@@ -83,7 +83,8 @@ def exhaustive(spans, *, maxlen, batches, buffers=(0,), maxruns=1, runflags=((1,
 
 
 def universe_ingest():
-    """3 span ids x 2 payload versions x parent options (parents only towards lower ids, or missing)"""
+    """3 span ids x 2 payload versions x parent options (parents only towards lower ids, or missing), plus the id e2
+    under another trace id"""
     out = []
     for ty in ("A", "B"):
         out.append(span("e1", NOPAR, ty=ty))
@@ -91,6 +92,9 @@ def universe_ingest():
             out.append(span("e2", par, ty=ty))
         for par in ("e1", "e2"):
             out.append(span("e3", par, ty=ty))
+    # a span id re-used by a span of another trace (span ids are unique across the whole store, not per trace)
+    out.append(span("e2", NOPAR, job="j2", ty="A"))
+    out.append(span("e2", "e1", job="j2", ty="B"))
     return out
 
 
